@@ -331,25 +331,36 @@ def run(ctx, explain=False):
     if not ctx.quick:
         recipes += generic_recipes(ctx.rng, 1200, 22, 40) + generic_recipes(ctx.rng, 800, 42, 60)
     traces = pool_map(drive, recipes)
-    ctx.validate("trace/Trace_Wulff.tla", traces, consts=CONSTS, nblocks=64,
-                 timeout=ctx.pick(600, 3000))
+    verdicts = ctx.validate("trace/Trace_Wulff.tla", traces, consts=CONSTS, nblocks=64,
+                            timeout=ctx.pick(600, 3000))
+    judged = [t for i, t in enumerate(traces) if not verdicts[i].startswith("OOD")]
+    ood = {}
+    for v in verdicts.values():
+        if v.startswith("OOD"):
+            ood[v[4:]] = ood.get(v[4:], 0) + 1
+    ctx.notes["out_of_domain_reasons"] = ood
     stats = [t["meta"].get("stats") for t in traces if t["meta"].get("stats")]
     ctx.notes["facets_max"] = max(s["facets"] for s in stats) if stats else 0
     ctx.notes["traces_with_cut_off_facets"] = sum(1 for s in stats if s["cut_off"])
     ctx.notes["traces_with_degenerate_vertices"] = sum(1 for s in stats if s["positions"] < s["emitted"])
     ctx.notes["max_projection_residual"] = "%.3g (units of 1/Q; bound %g)" % (
-        max([t["resid"] for t in traces] + [0]) * RESUNIT, TOL)
+        max([t["resid"] for t in judged] + [0]) * RESUNIT, TOL)
     ctx.notes["slack"] = ("vertices: exact after projection (residual <= %g); float mesh volume vs exact "
                           "enclosure: relative 1e-9 + enclosure width at resolution 1/%d" % (TOL, VOLS))
     ctx.rule = ("facet sets built from Pythagorean quadruples (w <= %d) with centrosymmetric completion and "
                 "energies p/Q; named/degenerate families (cube, box, rational octahedra, hexagonal/octagonal/"
                 "dodecagonal prisms, truncated cubes, rotated copies, planes touching an edge or a vertex) and "
-                "generic sets of 6..%d facets with energies in [1, 2]; non-trivial = at least one facet cut off "
+                "generic sets of 6..%d facets with energies in [1, 2]; facet sets of 8..24 facets without centrosymmetric "
+                "completion (TLC judges the bounded ones); the (shape, scale) instances of MC_Wulff replayed through "
+                "the real code; non-trivial = at least one facet cut off "
                 "entirely or a vertex emitted more than once (more than three facets meet)"
                 % (MAXW, ctx.pick(20, 60)))
     ctx.explanation = ("seeded sample of the infinite input domain; the expected polyhedron is recomputed exactly "
                        "by TLC for every trace (all plane triples by Cramer's rule)")
     ctx.assumptions = [
+        "judged only when the exact shape stays within 32 length units of the origin (OOD elongated) and its "
+        "distinct vertices are >= 1e-4 apart (OOD near-coincident-vertices; the code merges points below fixed "
+        "absolute tolerances 1e-5 / 1e-8); both guards are evaluated by TLC on the exact vertex set",
         "float vertices are identified with the unique rational of denominator <= wmax^3 within %g "
         "(no such rational -> OnGrid rejection)" % TOL,
         "a plane that only touches the shape in a vertex or an edge may list any subset of the touched "
